@@ -460,7 +460,14 @@ def check(pid, tier, seed):
                 if pre not in prefixes:
                     prefixes.append(pre)
         prefixes.sort(key=len)
-        prefixes = prefixes[: (3 if tier == "quick" else 8)]
+        # a spread over sizes (shortest ... longest), not only the smallest pattern sets: a slip in
+        # the port-graph conversion shows on hundreds of records, and only the larger patterns
+        # (a line with two non-root nodes, several roots) admit a failing host
+        is_pg = any(p.split(None, 2)[1] == "G" for p in prefixes)
+        want = (6 if is_pg else 3) if tier == "quick" else (12 if is_pg else 8)
+        if len(prefixes) > want:
+            step = (len(prefixes) - 1) / (want - 1)
+            prefixes = [prefixes[round(i * step)] for i in range(want)]
         if prefixes:
             os.makedirs(os.path.join(CACHE, "focus"), exist_ok=True)
             fpath = os.path.join(CACHE, "focus", f"{pid}.txt")
